@@ -8,6 +8,7 @@ import (
 	"fmt"
 	"math/bits"
 	"strings"
+	"sync"
 	"sync/atomic"
 )
 
@@ -19,19 +20,112 @@ type term struct {
 	name string
 	id   uint64
 	size int // number of nodes as a tree (saturating)
+	vars []*term
+	varsDone bool
+}
+
+// varsOf returns the variables occurring in t (cached; terms are immutable).
+func (t *term) varsOf() []*term {
+	if t.varsDone {
+		return t.vars
+	}
+	var out []*term
+	switch t.op {
+	case "const":
+	case "var":
+		out = []*term{t}
+	default:
+		seen := map[*term]bool{}
+		for _, a := range t.args {
+			for _, v := range a.varsOf() {
+				if !seen[v] {
+					seen[v] = true
+					out = append(out, v)
+				}
+			}
+		}
+	}
+	t.vars, t.varsDone = out, true
+	return out
 }
 
 var termCounter uint64
 
-func newTerm(op string, w int, args ...*term) *term {
-	sz := 1
-	for _, a := range args {
-		sz += a.size
-		if sz > 1<<30 {
-			sz = 1 << 30
-		}
+// Hash-consing: structurally equal terms are the same pointer (per process), which makes
+// syntactic checks and the branch-query cache cheap. The table is sharded to keep
+// contention between workers low, and is dropped between harnesses (ResetTerms).
+type termKey struct {
+	op      string
+	w       int
+	a, b, c *term
+	val     uint64
+}
+
+const termShards = 64
+
+var termTab [termShards]struct {
+	mu sync.Mutex
+	m  map[termKey]*term
+}
+
+func init() { ResetTerms() }
+
+// ResetTerms drops the intern table (call only when no exploration is running).
+func ResetTerms() {
+	for i := range termTab {
+		termTab[i].mu.Lock()
+		termTab[i].m = map[termKey]*term{}
+		termTab[i].mu.Unlock()
 	}
-	return &term{op: op, w: w, args: args, id: atomic.AddUint64(&termCounter, 1), size: sz}
+}
+
+func intern(k termKey, mk func() *term) *term {
+	h := uint64(len(k.op))*31 + uint64(k.w)*131 + k.val*2654435761
+	if k.a != nil {
+		h = h*1099511628211 + k.a.id
+	}
+	if k.b != nil {
+		h = h*1099511628211 + k.b.id
+	}
+	if k.c != nil {
+		h = h*1099511628211 + k.c.id
+	}
+	for i := 0; i < len(k.op); i++ {
+		h = h*131 + uint64(k.op[i])
+	}
+	sh := &termTab[h%termShards]
+	sh.mu.Lock()
+	t, ok := sh.m[k]
+	if !ok {
+		t = mk()
+		sh.m[k] = t
+	}
+	sh.mu.Unlock()
+	return t
+}
+
+func newTerm(op string, w int, args ...*term) *term {
+	k := termKey{op: op, w: w}
+	switch len(args) {
+	case 3:
+		k.c = args[2]
+		fallthrough
+	case 2:
+		k.b = args[1]
+		fallthrough
+	case 1:
+		k.a = args[0]
+	}
+	return intern(k, func() *term {
+		sz := 1
+		for _, a := range args {
+			sz += a.size
+			if sz > 1<<30 {
+				sz = 1 << 30
+			}
+		}
+		return &term{op: op, w: w, args: args, id: atomic.AddUint64(&termCounter, 1), size: sz}
+	})
 }
 
 func mask(w int) uint64 {
@@ -42,15 +136,18 @@ func mask(w int) uint64 {
 }
 
 var (
-	termTrue  = &term{op: "const", w: 0, val: 1, size: 1}
-	termFalse = &term{op: "const", w: 0, val: 0, size: 1}
+	termTrue  = &term{op: "const", w: 0, val: 1, size: 1, id: 1<<62 + 1}
+	termFalse = &term{op: "const", w: 0, val: 0, size: 1, id: 1<<62 + 2}
 )
 
 func mkConst(v uint64, w int) *term {
 	if w == 0 {
 		return mkBool(v != 0)
 	}
-	return &term{op: "const", w: w, val: v & mask(w), size: 1}
+	v &= mask(w)
+	return intern(termKey{op: "const", w: w, val: v}, func() *term {
+		return &term{op: "const", w: w, val: v, size: 1, id: atomic.AddUint64(&termCounter, 1)}
+	})
 }
 
 func mkBool(b bool) *term {
@@ -61,7 +158,9 @@ func mkBool(b bool) *term {
 }
 
 func mkVar(name string, w int) *term {
-	return &term{op: "var", w: w, name: name, id: atomic.AddUint64(&termCounter, 1), size: 1}
+	return intern(termKey{op: "var:" + name, w: w}, func() *term {
+		return &term{op: "var", w: w, name: name, id: atomic.AddUint64(&termCounter, 1), size: 1}
+	})
 }
 
 func (t *term) isConst() bool { return t.op == "const" }
@@ -76,18 +175,7 @@ func same(a, b *term) bool {
 	if a.op == "const" && b.op == "const" {
 		return a.w == b.w && a.val == b.val
 	}
-	if a.op == "var" && b.op == "var" {
-		return a.name == b.name
-	}
-	if a.op != b.op || a.w != b.w || len(a.args) != len(b.args) || a.size != b.size || a.size > 64 {
-		return false
-	}
-	for i := range a.args {
-		if !same(a.args[i], b.args[i]) {
-			return false
-		}
-	}
-	return true
+	return false
 }
 
 func mkNot(t *term) *term {
@@ -111,6 +199,9 @@ func mkAnd(a, b *term) *term {
 	case same(a, b):
 		return a
 	}
+	if a.id > b.id {
+		a, b = b, a
+	}
 	return newTerm("and", 0, a, b)
 }
 
@@ -124,6 +215,9 @@ func mkOr(a, b *term) *term {
 		return a
 	case same(a, b):
 		return a
+	}
+	if a.id > b.id {
+		a, b = b, a
 	}
 	return newTerm("or", 0, a, b)
 }
@@ -162,6 +256,9 @@ func mkEq(a, b *term) *term {
 	}
 	if a.isConst() && strings.HasPrefix(b.op, "(_ zero_extend") {
 		return mkEq(b, a)
+	}
+	if a.id > b.id {
+		a, b = b, a
 	}
 	return newTerm("=", 0, a, b)
 }
